@@ -102,6 +102,8 @@ func runC17(c *Ctx, r *Report) {
 	c17ReadErrors(c, r)
 	c17ExitMessages(c, r)
 	c17ChildExit(c, r)
+	c17ErrorsExamined(c, r)
+	c17ReadErrorsKept(c, r)
 }
 
 // ---- R17.1 -----------------------------------------------------------------
@@ -1768,4 +1770,433 @@ func c17ChildExit(c *Ctx, r *Report) {
 		}
 	}
 	r.Floor("R17.13", "waits on input children", n, 1)
+}
+
+// ---- R17.14 ------------------------------------------------------------------
+// Path-sensitive "the error is looked at": on every path from the call to a
+// return, the error value is compared with nil, returned, sent, or passed on —
+// not overwritten on the way.
+type errPathState struct {
+	alias map[ssa.Value]bool // SSA values equal to the error on this path
+	cells map[ssa.Value]bool // local cells (allocs) currently holding it
+}
+
+func (s *errPathState) clone() *errPathState {
+	n := &errPathState{alias: map[ssa.Value]bool{}, cells: map[ssa.Value]bool{}}
+	for k := range s.alias {
+		n.alias[k] = true
+	}
+	for k := range s.cells {
+		n.cells[k] = true
+	}
+	return n
+}
+
+// errLostOnSomePath returns a description of a path on which the error result
+// of call is never examined, or "".
+func errLostOnSomePath(c *Ctx, fn *ssa.Function, call *ssa.Call) string {
+	ev := ErrValueOf(call)
+	if ev == nil {
+		return ""
+	}
+	lost := ""
+	steps := 0
+	var walk func(b *ssa.BasicBlock, from *ssa.BasicBlock, startIdx int, st *errPathState, seen map[*ssa.BasicBlock]int)
+	walk = func(b *ssa.BasicBlock, from *ssa.BasicBlock, startIdx int, st *errPathState, seen map[*ssa.BasicBlock]int) {
+		if lost != "" || steps > 20000 {
+			return
+		}
+		steps++
+		if seen[b] >= 2 {
+			return
+		}
+		seen2 := map[*ssa.BasicBlock]int{}
+		for k, v := range seen {
+			seen2[k] = v
+		}
+		seen2[b]++
+		if from != nil {
+			pi := -1
+			for i, p := range b.Preds {
+				if p == from {
+					pi = i
+				}
+			}
+			for _, in := range b.Instrs {
+				phi, ok := in.(*ssa.Phi)
+				if !ok {
+					break
+				}
+				if pi >= 0 && st.alias[phi.Edges[pi]] {
+					st.alias[phi] = true
+				} else {
+					delete(st.alias, phi)
+				}
+			}
+		}
+		for i := startIdx; i < len(b.Instrs); i++ {
+			switch x := b.Instrs[i].(type) {
+			case *ssa.Store:
+				if st.alias[x.Val] {
+					if _, isAlloc := x.Addr.(*ssa.Alloc); isAlloc {
+						st.cells[x.Addr] = true
+					} else {
+						return // stored into a field / global / slice: kept for someone else
+					}
+				} else if st.cells[x.Addr] {
+					delete(st.cells, x.Addr) // overwritten
+				}
+			case *ssa.UnOp:
+				if x.Op == token.MUL && st.cells[x.X] {
+					st.alias[x] = true
+				}
+			case *ssa.MakeInterface:
+				if st.alias[x.X] {
+					st.alias[x] = true
+				}
+			case *ssa.ChangeInterface:
+				if st.alias[x.X] {
+					st.alias[x] = true
+				}
+			case *ssa.Send:
+				if st.alias[x.X] {
+					return
+				}
+			case *ssa.Select:
+				for _, s := range x.States {
+					if s.Send != nil && st.alias[s.Send] {
+						return
+					}
+				}
+			case ssa.CallInstruction:
+				for _, a := range x.Common().Args {
+					if st.alias[a] {
+						return // passed on (append to a list, wrap, print)
+					}
+				}
+			case *ssa.If:
+				if bo, ok := x.Cond.(*ssa.BinOp); ok && (bo.Op == token.NEQ || bo.Op == token.EQL) && (st.alias[bo.X] || st.alias[bo.Y]) {
+					return // examined
+				}
+			case *ssa.Return:
+				for _, res := range x.Results {
+					if st.alias[res] {
+						return
+					}
+				}
+				if len(st.alias) == 0 && len(st.cells) == 0 {
+					lost = c.Rel(x.Pos()) + ": on a path to this return the error has been overwritten before anything looked at it"
+				} else {
+					lost = c.Rel(x.Pos()) + ": a path reaches this return without the error having been compared, returned, sent or passed on"
+				}
+				return
+			case *ssa.Panic:
+				return
+			}
+		}
+		for _, s := range b.Succs {
+			walk(s, b, 0, st.clone(), seen2)
+		}
+	}
+	// start right after the call (and its extract)
+	b := call.Block()
+	idx := 0
+	for i, in := range b.Instrs {
+		if in == ssa.Instruction(call) {
+			idx = i + 1
+		}
+	}
+	st := &errPathState{alias: map[ssa.Value]bool{ev: true}, cells: map[ssa.Value]bool{}}
+	if ev != ssa.Value(call) {
+		// the extract may come later in the block; alias is keyed by the extract value itself
+	}
+	walk(b, nil, idx, st, map[*ssa.BasicBlock]int{})
+	return lost
+}
+
+func c17ErrorsExamined(c *Ctx, r *Report) {
+	r.Rule("R17.14", "an output error is looked at on every path: in pkg/output, pkg/stream and pkg/entrypoint, the error result of every Flush / Close / Write* / Rename / Chmod call that is not discarded outright (R17.6) is, on each path from the call to a return, compared with nil, returned, sent or passed on — never overwritten first (retval = Flush(); retval = Close() loses the flush error)")
+	n := 0
+	for _, fn := range c.ModuleFunctions() {
+		if fn.Pkg == nil {
+			continue
+		}
+		pp := fn.Pkg.Pkg.Path()
+		if !(strings.HasSuffix(pp, "/pkg/output") || strings.HasSuffix(pp, "/pkg/stream") || strings.HasSuffix(pp, "/pkg/entrypoint")) {
+			continue
+		}
+		k := 0
+		for _, b := range fn.Blocks {
+			for _, in := range b.Instrs {
+				call, ok := in.(*ssa.Call)
+				if !ok {
+					continue
+				}
+				name := CalleeName(&call.Call)
+				short := name
+				if call.Call.IsInvoke() {
+					short = call.Call.Method.Name()
+				} else if i := strings.LastIndex(name, "."); i >= 0 {
+					short = name[i+1:]
+				}
+				if !(short == "Flush" || short == "Close" || strings.HasPrefix(short, "Write") || short == "Rename" || short == "Chmod") {
+					continue
+				}
+				ev := ErrValueOf(call)
+				if ev == nil || ev.Referrers() == nil || len(*ev.Referrers()) == 0 {
+					continue // discarded outright: R17.6's business
+				}
+				n++
+				k++
+				key := fmt.Sprintf("%s: error of %s #%d", SSAName(fn), short, k)
+				lost := errLostOnSomePath(c, fn, call)
+				r.Check(lost == "", "R17.14", key, c.Rel(call.Pos()), "examined on every path",
+					fmt.Sprintf("the error of %s in %s can be lost: %s — a failed write would end in exit status 0", short, SSAName(fn), lost))
+			}
+		}
+	}
+	r.Floor("R17.14", "output error results followed", n, 15)
+}
+
+// ---- R17.15 ------------------------------------------------------------------
+// A read error becomes "no error" only under an end-of-file test.
+func readErrorSwallowed(c *Ctx, fn *ssa.Function, call *ssa.Call) string {
+	ev := ErrValueOf(call)
+	if ev == nil {
+		return ""
+	}
+	type state struct {
+		alias  map[ssa.Value]bool
+		cells  map[ssa.Value]bool
+		nonnil bool
+		eof    bool
+	}
+	clone := func(s *state) *state {
+		n := &state{alias: map[ssa.Value]bool{}, cells: map[ssa.Value]bool{}, nonnil: s.nonnil, eof: s.eof}
+		for k := range s.alias {
+			n.alias[k] = true
+		}
+		for k := range s.cells {
+			n.cells[k] = true
+		}
+		return n
+	}
+	isEOFTest := func(v ssa.Value, st *state) bool {
+		switch x := v.(type) {
+		case *ssa.Call:
+			n := CalleeName(&x.Call)
+			if strings.HasSuffix(n, ".IsEOF") && len(x.Call.Args) == 1 && st.alias[x.Call.Args[0]] {
+				return true
+			}
+			if n == "errors.Is" && len(x.Call.Args) == 2 && st.alias[x.Call.Args[0]] {
+				return true
+			}
+		case *ssa.BinOp:
+			if x.Op == token.EQL {
+				for _, pr := range [][2]ssa.Value{{x.X, x.Y}, {x.Y, x.X}} {
+					if st.alias[pr[0]] {
+						if ld, ok := pr[1].(*ssa.UnOp); ok {
+							if g, ok := ld.X.(*ssa.Global); ok && g.Name() == "EOF" {
+								return true
+							}
+						}
+					}
+				}
+			}
+		}
+		return false
+	}
+	lost := ""
+	steps := 0
+	var walk func(b, from *ssa.BasicBlock, startIdx int, st *state, seen map[*ssa.BasicBlock]int)
+	walk = func(b, from *ssa.BasicBlock, startIdx int, st *state, seen map[*ssa.BasicBlock]int) {
+		if lost != "" || steps > 20000 || seen[b] >= 2 {
+			return
+		}
+		steps++
+		seen2 := map[*ssa.BasicBlock]int{}
+		for k, v := range seen {
+			seen2[k] = v
+		}
+		seen2[b]++
+		var nilPhis map[ssa.Value]bool
+		if from != nil {
+			pi := -1
+			for i, p := range b.Preds {
+				if p == from {
+					pi = i
+				}
+			}
+			for _, in := range b.Instrs {
+				phi, ok := in.(*ssa.Phi)
+				if !ok {
+					break
+				}
+				if pi >= 0 && st.alias[phi.Edges[pi]] {
+					st.alias[phi] = true
+				} else {
+					delete(st.alias, phi)
+					if pi >= 0 {
+						if k, ok := phi.Edges[pi].(*ssa.Const); ok && k.IsNil() && isErrorType(phi.Type()) {
+							if nilPhis == nil {
+								nilPhis = map[ssa.Value]bool{}
+							}
+							nilPhis[phi] = true
+						}
+					}
+				}
+			}
+		}
+		_ = nilPhis
+		for i := startIdx; i < len(b.Instrs); i++ {
+			switch x := b.Instrs[i].(type) {
+			case *ssa.Store:
+				if st.alias[x.Val] {
+					if _, isAlloc := x.Addr.(*ssa.Alloc); isAlloc {
+						st.cells[x.Addr] = true
+					} else {
+						return // remembered in a field: reported later
+					}
+				} else if st.cells[x.Addr] {
+					delete(st.cells, x.Addr)
+				}
+			case *ssa.UnOp:
+				if x.Op == token.MUL && st.cells[x.X] {
+					st.alias[x] = true
+				}
+			case *ssa.MakeInterface:
+				if st.alias[x.X] {
+					st.alias[x] = true
+				}
+			case *ssa.Send:
+				if st.alias[x.X] {
+					return
+				}
+			case *ssa.Select:
+				for _, s := range x.States {
+					if s.Send != nil && st.alias[s.Send] {
+						return
+					}
+				}
+			case ssa.CallInstruction:
+				if v, ok := x.(ssa.Value); ok && isEOFTest(v, st) {
+					continue
+				}
+				for _, a := range x.Common().Args {
+					if st.alias[a] {
+						return // wrapped, printed, passed on
+					}
+				}
+			case *ssa.If:
+				cond, pol := stripNot(x.Cond, true)
+				s0, s1 := clone(st), clone(st)
+				if bo, ok := cond.(*ssa.BinOp); ok && (bo.Op == token.NEQ || bo.Op == token.EQL) {
+					isNilCmp := false
+					if k, ok := bo.Y.(*ssa.Const); ok && k.IsNil() && st.alias[bo.X] {
+						isNilCmp = true
+					}
+					if k, ok := bo.X.(*ssa.Const); ok && k.IsNil() && st.alias[bo.Y] {
+						isNilCmp = true
+					}
+					if isNilCmp {
+						nonNilOnTrue := (bo.Op == token.NEQ) == pol
+						if nonNilOnTrue {
+							s0.nonnil = true
+							walk(b.Succs[0], b, 0, s0, seen2)
+							// false branch: the error is nil — nothing to lose
+						} else {
+							s1.nonnil = true
+							walk(b.Succs[1], b, 0, s1, seen2)
+						}
+						return
+					}
+				}
+				if isEOFTest(cond, st) {
+					if pol {
+						s0.eof = true
+					} else {
+						s1.eof = true
+					}
+				}
+				walk(b.Succs[0], b, 0, s0, seen2)
+				walk(b.Succs[1], b, 0, s1, seen2)
+				return
+			case *ssa.Return:
+				for _, res := range x.Results {
+					if st.alias[res] {
+						return
+					}
+				}
+				if st.nonnil && !st.eof {
+					lost = c.Rel(x.Pos()) + ": a path on which the read returned a non-nil error that was not tested for end of file reaches this return without the error"
+				}
+				return
+			case *ssa.Panic:
+				return
+			}
+		}
+		for _, s := range b.Succs {
+			walk(s, b, 0, clone(st), seen2)
+		}
+	}
+	b := call.Block()
+	idx := 0
+	for i, in := range b.Instrs {
+		if in == ssa.Instruction(call) {
+			idx = i + 1
+		}
+	}
+	walk(b, nil, idx, &state{alias: map[ssa.Value]bool{ev: true}, cells: map[ssa.Value]bool{}}, map[*ssa.BasicBlock]int{})
+	return lost
+}
+
+func c17ReadErrorsKept(c *Ctx, r *Report) {
+	r.Rule("R17.15", "a read error becomes 'no error' only under an end-of-file test: in the readers (pkg/input, pkg/lib), on no path does a function return without the error of an underlying Read / ReadString / ReadLine / ReadBytes / ReadRune call once that error is known to be non-nil and has not been tested with IsEOF / == io.EOF / errors.Is — a truncated compressed input must not look like a clean end of file")
+	n := 0
+	for _, fn := range c.ModuleFunctions() {
+		if fn.Pkg == nil {
+			continue
+		}
+		pp := fn.Pkg.Pkg.Path()
+		if !(strings.HasSuffix(pp, "/pkg/input") || strings.HasSuffix(pp, "/pkg/lib")) {
+			continue
+		}
+		k := 0
+		for _, b := range fn.Blocks {
+			for _, in := range b.Instrs {
+				call, ok := in.(*ssa.Call)
+				if !ok {
+					continue
+				}
+				short := ""
+				if call.Call.IsInvoke() {
+					short = call.Call.Method.Name()
+				} else {
+					name := CalleeName(&call.Call)
+					if i := strings.LastIndex(name, "."); i >= 0 {
+						short = name[i+1:]
+					}
+					if IsModuleFunc(call.Call.StaticCallee()) {
+						short = "" // module wrappers are followed where they are defined
+					}
+				}
+				switch short {
+				case "Read", "ReadString", "ReadLine", "ReadBytes", "ReadRune", "ReadSlice":
+				default:
+					continue
+				}
+				ev := ErrValueOf(call)
+				if ev == nil || ev.Referrers() == nil || len(*ev.Referrers()) == 0 {
+					continue
+				}
+				n++
+				k++
+				key := fmt.Sprintf("%s: error of %s #%d", SSAName(fn), short, k)
+				lost := readErrorSwallowed(c, fn, call)
+				r.Check(lost == "", "R17.15", key, c.Rel(call.Pos()), "kept unless end of file",
+					fmt.Sprintf("%s can swallow a read error: %s — the input ends early, mlr exits 0 and nothing is printed", SSAName(fn), lost))
+			}
+		}
+	}
+	r.Floor("R17.15", "low-level reads followed", n, 8)
 }
